@@ -721,8 +721,12 @@ def swap_handover(prog, chk, rid, classes=None):
                     a = stored_from("this->" + fld, "%s.%s" % (o, fld), False)
                     b = stored_from("%s.%s" % (o, fld), "this->" + fld, True)
                     for ok, dsc in ((a, "this->%s = %s.%s" % (fld, o, fld)), (b, "%s.%s = previous this->%s" % (o, fld, fld))):
-                        if ok:
-                            chk.ok(rid, f, dsc, where, "store with the entry value of the source found")
+                        if ok and not swap_on_every_path(f, ok):
+                            chk.bad(rid, f, "swap-conditional:" + dsc.replace(o + ".", "other."), f.where(ok[0]),
+                                    "`%s` is performed on some paths through swap only: where it is skipped the two containers keep (or both get) "
+                                    "the same value of that field although the rest changed hands - e.g. a capacity that no longer describes the block" % dsc)
+                        elif ok:
+                            chk.ok(rid, f, dsc, where, "store with the entry value of the source found, on every path")
                         else:
                             chk.bad(rid, f, "swap-misses:" + dsc.replace(o + ".", "other."), where,
                                     "swap does not perform `%s` with the value the source had on entry; afterwards both containers "
@@ -965,6 +969,7 @@ def swap_stored_from(f, st, defs, side_lhs, src_text, need_tmp):
     by-value parameters of an inlined helper, the first of which was initialised from it before it was overwritten?"""
     T = lambda i: q.no_casts(f.r(i))
     over = [x for x in st if T(x.lhs) == src_text]
+    found = []
     for s in st:
         if s.op != "=" or T(s.lhs) != side_lhs or s.rhs is None:
             continue
@@ -984,8 +989,27 @@ def swap_stored_from(f, st, defs, side_lhs, src_text, need_tmp):
                 continue
             break
           if T(x) == src_text and all(not q.reaches(f, o.node, read_at) for o in over):
-            return True
-    return False
+            found.append(s.node)
+    return found
+
+
+def swap_on_every_path(f, store_nodes):
+    """do the stores that hand a field over lie on every path through swap (the one way round them: `this == &other`)?"""
+    if not store_nodes or not f.params:
+        return False
+    want = {"this", "&" + f.params[0]["n"]}
+    cut = set()
+    for b in f.blocks.values():
+        if b.get("cond") is None or len(b["succ"]) != 2 or b.get("tk") == "SwitchStmt" or b["succ"][0] == b["succ"][1]:
+            continue
+        for s_ in b["succ"]:
+            if s_ is None:
+                continue
+            for an, tr in fin.edge_atoms(f, b, s_):
+                cn = fin._canon(f, an, tr)
+                if cn[0] != "val" and cn[1] == "==" and {cn[0], cn[2]} == want:
+                    cut.add((b["id"], s_))
+    return fin.path_with_cuts(f, f.entry_pos(), f.exit_pos(), avoid=q.pos_of(f, store_nodes), cut=cut, after_src=False) is None
 
 
 def swap_plain(chk, rid, f, plain):
@@ -1000,8 +1024,11 @@ def swap_plain(chk, rid, f, plain):
         b = swap_stored_from(f, st, defs, "%s.%s" % (o, fld), "this->" + fld, True) or \
             swap_stored_from(f, st, defs, "%s.%s" % (o, fld), "this->" + fld, False)
         for ok, dsc in ((a, "this->%s = previous %s.%s" % (fld, o, fld)), (b, "%s.%s = previous this->%s" % (o, fld, fld))):
-            if ok:
-                chk.ok(rid, f, dsc, where, "store with the entry value of the source found")
+            if ok and not swap_on_every_path(f, ok):
+                chk.bad(rid, f, "swap-conditional:" + dsc.replace(o + ".", "other."), f.where(ok[0]),
+                        "`%s` is performed on some paths through swap only: where it is skipped both handles keep (or get) the same value of that field" % dsc)
+            elif ok:
+                chk.ok(rid, f, dsc, where, "store with the entry value of the source found, on every path")
             else:
                 chk.bad(rid, f, "swap-misses:" + dsc.replace(o + ".", "other."), where,
                         "swap does not perform `%s` with the value the source had on entry" % dsc)
@@ -1455,3 +1482,40 @@ def find_walks_chain(prog, chk, rid, classes):
                                 "stores it twice" % (name, q.no_casts(f.r(bad[0][1]))[:40]), evals=len(steps) + 1)
                     else:
                         chk.ok(rid, f, "bucket walk advances along nextCell (%d step site(s))" % len(steps), "%s:%s" % (f.file, f.line), "stores to the walk variable", evals=len(steps) + 1)
+
+
+def assignment_discards_old(prog, chk, rid, classes=("List", "Map", "MultiMap", "HashMap", "HashSet")):
+    """`a = b` leaves `a` with b's contents - also when b is empty: unless the argument is the container itself, every path through
+    operator= discards the old contents (the one early way out is the alias test)"""
+    chk.rule(rid, "MPT: in operator=(const Self& other) of the node containers every path from the entry to a return passes the event that "
+                  "discards the old contents (clear() on this, or the hand-over to a temporary), except over the `this == &other` edge", floor=len(classes))
+    for cls in classes:
+        for tn, fs in sorted(class_insts(prog, cls).items()):
+            for f in [f for f in fs if f.kind == "copyassign" and f.blocks]:
+                other = f.params[0]["n"]
+                where = "%s:%s" % (f.file, f.line)
+                drop = [i for i in q.calls(f) if (f.nodes[i].get("callee", "") or "").split("::")[-1] in ("clear", "swap") and
+                        (q.call_object(f, i) is None or f.nodes[q.call_object(f, i)]["k"] == "CXXThisExpr")]
+                if not drop:
+                    chk.ok(rid, f, "operator= does not go through clear()/swap(): not decided here", where, "-", nontrivial=False)
+                    continue
+                want = {"this", "&" + other}
+                cut = set()
+                for b in f.blocks.values():
+                    if b.get("cond") is None or len(b["succ"]) != 2 or b.get("tk") == "SwitchStmt" or b["succ"][0] == b["succ"][1]:
+                        continue
+                    for s_ in b["succ"]:
+                        if s_ is None:
+                            continue
+                        for an, tr in fin.edge_atoms(f, b, s_):
+                            cn = fin._canon(f, an, tr)
+                            if cn[0] != "val" and cn[1] == "==" and {cn[0], cn[2]} == want:
+                                cut.add((b["id"], s_))
+                pth = fin.path_with_cuts(f, f.entry_pos(), f.exit_pos(), avoid=q.pos_of(f, drop), cut=cut, after_src=False)
+                if pth is None:
+                    chk.ok(rid, f, "every non-alias path through operator= discards the old contents", f.where(drop[0]), "MPT with the alias edge cut", evals=len(drop) + len(cut))
+                else:
+                    chk.bad(rid, f, "assignment-keeps-old-contents", where,
+                            "a path through operator= (lines %s) returns without `clear()` although the argument is another container: for an empty "
+                            "argument the target keeps its old entries - size, contents, find and iteration disagree with the source" % f.path_lines(pth)[:8],
+                            evals=len(drop) + len(cut))
